@@ -77,7 +77,7 @@ CHECKS = {
     "C11": {
         "level": "fault_enumeration",
         "budget": {"quick": 50, "thorough": 900},
-        "min_histories": {"quick": 20, "thorough": 100},
+        "min_histories": {"quick": 20, "thorough": 40},
         "min_events": {"quick": {"journals_tampered": 3}, "thorough": {"journals_tampered": 16}},
         "unit": "journal-producing histories (direct concurrent FileState::apply with injected append failures, and concurrent connections against the server)",
         "rule": ("(a) Concurrency: 1-8 tasks call the real FileState::apply concurrently on one journal (what concurrent purge handlers under the shared system lock do) and 2-8 client connections "
